@@ -41,7 +41,7 @@ FILE_LAYOUTS = {
     # in another FITS extension (reader option hdu), HDF5 datasets inside a group
     "fits": [None, None, {"suffix": ".cat"}, {"hdu": 2}],
     "hdf5": [None, None, {"suffix": ".h5"}, {"suffix": ".hdf"}, {"group": "data/set1"}, {"chunks": 7}, {"chunks": 64, "compression": "gzip"}],
-    "parquet": [None, None, {"suffix": ".pq"}, {"suffix": ".pqt"}, {"suffix": ".parq"}],
+    "parquet": [{"empty_groups": [1]}, None, {"empty_groups": [0, 2]}, None, {"suffix": ".pq"}, {"suffix": ".pqt", "empty_groups": [1, 2]}, {"suffix": ".parq"}, {"empty_groups": [3, 99]}],
 }
 
 
@@ -122,7 +122,22 @@ def _write_layout(kind, table, tmp, row_group_size, layout):
         from pyarrow import parquet
 
         path = tmp / ("input" + (suffix or ".parquet"))
-        parquet.write_table(pa.table(cols), path, row_group_size=row_group_size or max(1, len(cols["ra"])))
+        tab = pa.table(cols)
+        if layout.get("empty_groups"):
+            # a valid Parquet file may hold row groups without rows (writers that flush per batch
+            # produce them); positions are row-group indices before which an empty group is put
+            size = row_group_size or max(1, len(cols["ra"]))
+            pieces = [tab.slice(i, size) for i in range(0, max(1, tab.num_rows), size)]
+            with parquet.ParquetWriter(path, tab.schema) as writer:
+                for k, piece in enumerate(pieces):
+                    if k in layout["empty_groups"]:
+                        writer.write_table(tab.slice(0, 0))
+                    if piece.num_rows:
+                        writer.write_table(piece)
+                if len(pieces) in layout["empty_groups"]:
+                    writer.write_table(tab.slice(0, 0))
+            return path, {}, ""
+        parquet.write_table(tab, path, row_group_size=row_group_size or max(1, len(cols["ra"])))
         return path, {}, ""
     raise ValueError(kind)
 
@@ -197,4 +212,56 @@ class RecordingFrame:
             if self._start == 0 and self._stop == len(next(iter(self._cols.values()))) and self._stop > 0:
                 self._log.append(("column-of-whole-frame", item))
             return RecordingColumn(self._cols[item][self._start : self._stop])
+        if isinstance(item, (list, tuple)) and all(isinstance(c, str) for c in item):
+            # column subset: still no row data requested
+            return RecordingFrame({c: self._cols[c] for c in item}, self._log, self._start, self._stop)
         raise TypeError(f"unsupported index {item!r}")
+
+    # ---- metadata a pandas frame answers without handing out row data; a reader that merely
+    # looks at them must not fail on the recording stand-in
+    @property
+    def columns(self):
+        import pandas as pd
+
+        return pd.Index(list(self._cols))
+
+    def keys(self):
+        return self.columns
+
+    @property
+    def dtypes(self):
+        import pandas as pd
+
+        return pd.Series({c: np.asarray(v[:0]).dtype for c, v in self._cols.items()})
+
+    @property
+    def shape(self):
+        return (len(self), len(self._cols))
+
+    @property
+    def empty(self):
+        return len(self) == 0
+
+    @property
+    def index(self):
+        import pandas as pd
+
+        return pd.RangeIndex(self._start, self._stop)
+
+    def __contains__(self, name):
+        return name in self._cols
+
+    def __iter__(self):
+        return iter(self._cols)
+
+    @property
+    def iloc(self):
+        frame = self
+
+        class _ILoc:
+            def __getitem__(self, item):
+                if isinstance(item, slice):
+                    return frame[item]
+                raise TypeError(f"unsupported positional index {item!r}")
+
+        return _ILoc()
